@@ -72,7 +72,7 @@ func (c *VCtx) ghostMaps() []*ghostMapInfo {
 		for _, g := range ps.Ghosts {
 			ty := g.Type
 			kind := "shared"
-			for _, k := range []string{"owned", "once", "shared"} {
+			for _, k := range []string{"owned", "once", "shared", "local"} {
 				if strings.HasSuffix(ty, " "+k) {
 					kind = k
 					ty = strings.TrimSpace(strings.TrimSuffix(ty, " "+k))
@@ -158,6 +158,9 @@ func (c *VCtx) sharedHavoc(st *State, before *State) {
 	}
 	// ghost maps
 	for _, g := range c.ghostMaps() {
+		if g.kind == "local" {
+			continue // thread-local ghost: nobody else writes it
+		}
 		old := c.heap(st, g.heap, g.sort)
 		nw := c.fresh("H!"+g.heap, g.sort)
 		ks, _ := arrParts(g.sort)
